@@ -17,7 +17,6 @@ import (
 	"github.com/youchainhq/go-youchain/core/state"
 	"github.com/youchainhq/go-youchain/core/types"
 	"github.com/youchainhq/go-youchain/core/vm"
-	"github.com/youchainhq/go-youchain/crypto"
 	"github.com/youchainhq/go-youchain/local"
 	"github.com/youchainhq/go-youchain/params"
 	"github.com/youchainhq/go-youchain/rlp"
@@ -173,6 +172,10 @@ func (w *world) payload(c *TxCls) (to *common.Address, data []byte, mv int64, er
 		return addr(params.StakingModuleAddress), data, dlgValue, err
 	case "staking/deposit":
 		data, err = staking.EncodeMessage(staking.ValidatorDeposit, &staking.TxValidatorDeposit{MainAddress: w.Vals[1].Addr, Value: big.NewInt(depValue)})
+		return addr(params.StakingModuleAddress), data, depValue, err
+	case "staking/unauth":
+		// a deposit for validator v3, which neither sender operates: the handler refuses it, the transaction is included as failed
+		data, err = staking.EncodeMessage(staking.ValidatorDeposit, &staking.TxValidatorDeposit{MainAddress: w.Vals[3].Addr, Value: big.NewInt(depValue)})
 		return addr(params.StakingModuleAddress), data, depValue, err
 	case "staking/garbage":
 		return addr(params.StakingModuleAddress), []byte{0xde, 0xad, 0xbe, 0xef}, 0, nil
@@ -402,7 +405,7 @@ type rawTx struct {
 var secpN, _ = new(big.Int).SetString("fffffffffffffffffffffffffffffffebaaedce6af48a03bbfd25e8cd0364141", 16)
 
 // AllMutations lists the single-field mutations of a signed transaction.
-var AllMutations = []string{"none", "nonce", "price", "limit", "to", "value", "data", "data_trunc", "netid_v", "netid_signer", "highs", "highs_flipv",
+var AllMutations = []string{"none", "nonce", "price", "limit", "to", "value", "data", "data_trunc", "netid_v", "netid_signer", "netid_replay", "highs", "highs_flipv",
 	"flipv", "unprotected", "r"}
 
 func (w *world) sig(env *drive.Env, b *Beh) error {
@@ -477,6 +480,22 @@ func (w *world) sig(env *drive.Env, b *Beh) error {
 			raw.V.Add(raw.V, big.NewInt(2))
 		case "netid_signer":
 			signer = types.NewYouSigner(otherNet)
+		case "netid_replay":
+			// the same fields signed by the same key for ANOTHER network, presented here with V rewritten to this network
+			os := types.NewYouSigner(otherNet)
+			var unsigned *types.Transaction
+			if tx.To() == nil {
+				unsigned = types.NewContractCreation(tx.Nonce(), tx.Value(), tx.Gas(), tx.GasPrice(), tx.Data())
+			} else {
+				unsigned = types.NewTransaction(tx.Nonce(), *tx.To(), tx.Value(), tx.Gas(), tx.GasPrice(), tx.Data())
+			}
+			otx, err := types.SignTx(unsigned, os, w.accts[t.S].Priv)
+			if err != nil {
+				return err
+			}
+			ov, or, oss := otx.RawSignatureValues()
+			raw.R, raw.S = new(big.Int).Set(or), new(big.Int).Set(oss)
+			raw.V = new(big.Int).Sub(ov, big.NewInt(2)) // otherNet = this network + 1
 		case "highs":
 			raw.S = new(big.Int).Sub(secpN, raw.S)
 		case "highs_flipv":
@@ -553,6 +572,5 @@ func run(env *drive.Env) error {
 		}
 		b = Beh{}
 	}
-	_ = crypto.Keccak256
 	return nil
 }
